@@ -163,11 +163,28 @@ class DistTree:
                     seen[name] = 2
                     text = self._drop(text, name)
             text = self._cascade(text, [f["theorem"] for f in self.failed_theorems], note, seen)
+        surveyed = False
         for _ in range(60):
             av.write_text(text)
             rc, out = _coqc_tree(self.dir, av, timeout=600)
             if rc == 0:
                 break
+            if not surveyed:
+                # one pass of the toplevel (it goes on after an error) finds ALL theorems that no longer check, so
+                # that several independent failures cost two compilations, not one each
+                surveyed = True
+                t1 = time.time()
+                bad = self._survey(text)
+                self.timing["survey_s"] = round(time.time() - t1, 2)
+                for name, why in bad:
+                    if seen.get(name, 0) >= 1:
+                        continue
+                    note(name, why)
+                    seen[name] = 1
+                    text = self._abort(text, name)
+                if bad:
+                    text = self._cascade(text, [n for n, _w in bad], note, seen)
+                    continue
             m = re.search(r'File "[^"]*GenAgree\.v", line (\d+)', out)
             item = self._item_at(text, int(m.group(1))) if m else None
             err = re.sub(r"\s+", " ", out[out.find("Error"):])[:600]
@@ -188,6 +205,39 @@ class DistTree:
             text = self._cascade(text, [name], note, seen)
         state.write_text(json.dumps(self.failed_theorems))
         self.timing["coqc_agree_s"] = round(time.time() - t0, 2)
+
+    def _survey(self, text: str):
+        """[(theorem, first error)] of every Theorem / Lemma that the toplevel cannot define, found in ONE pass:
+        coqtop reads the file from stdin and goes on after an error; after every Qed an `Abort.` closes a proof that
+        did not check (an error, and harmless, when it did), and `Check <name>.` tells whether the name exists."""
+        out, pos = [], 0
+        names = []
+        for kind, name, a, b in self._items(text):
+            if kind not in ("Theorem", "Lemma") or "Proof. Abort. (* no longer checks *)" in text[a:b]:
+                continue
+            out.append(text[pos:a])
+            out.append(f"Check (fun SURVEY_BEGIN_{name} : nat => SURVEY_BEGIN_{name}).\n")
+            out.append(text[a:b])
+            out.append(f"\nAbort.\nCheck {name}.\nCheck (fun SURVEY_END_{name} : nat => SURVEY_END_{name}).\n")
+            pos = b
+            names.append(name)
+        out.append(text[pos:])
+        cmd = ["timeout", "600", "coqtop", "-q", "-R", str(C.COQ), "PV", "-R", str(self.dir), "PVT", "-w", _COQ_WARN]
+        try:
+            p = subprocess.run(cmd, input="".join(out), stdout=subprocess.PIPE, stderr=subprocess.STDOUT, text=True, cwd=self.dir)
+        except OSError:
+            return []
+        log = p.stdout
+        bad = []
+        for name in names:
+            i, j = log.find(f"SURVEY_BEGIN_{name} "), log.find(f"SURVEY_END_{name} ")
+            if i < 0 or j < 0:
+                continue                    # the pass did not get here: left to the compile loop
+            seg = log[i:j]
+            if re.search(r"The reference " + re.escape(name) + r" was not found", seg):
+                m = re.search(r"Error:.*?(?=\n\S*\s*<|\Z)", seg, re.S)
+                bad.append((name, re.sub(r"\s+", " ", m.group(0) if m else "does not check")[:600]))
+        return bad
 
     _ITEM = re.compile(r"^[ \t]*(Theorem|Lemma|Definition|Fixpoint|Ltac)\s+([A-Za-z0-9_']+)", re.M)
 
